@@ -29,4 +29,6 @@ CASES = [
     dict(expect="silent", desc="debounce: decision local renamed / written as nested ifs", edits=[dict(file="reactivex/operators/_debounce.py",
          old="                should_emit = has_value[0] and _id[0] == current_id\n                has_value[0] = False\n                if should_emit:\n                    observer.on_next(value[0])",
          new="                fire = has_value[0] and _id[0] == current_id\n                has_value[0] = False\n                if not fire:\n                    return\n                observer.on_next(value[0])")]),
+    dict(expect="fire", desc="seed C16-r2/1: throttle_first compares float seconds", names="R3-throttle-first", edits=[dict(file="reactivex/operators/_throttlefirst.py",
+         old="            now = _scheduler.now\n", new="            now = _scheduler.to_seconds(_scheduler.now)\n")]),
 ]
